@@ -122,7 +122,9 @@ def cube_specs(draw, max_nd=3, min_nd=0, max_n=40, tails=((), (), (2,), (3,), (1
             "reverse": draw(st.booleans())}
 
 
-def fact_specs(N, dtypes=("float", "int"), max_k=3, dyadic=True):
+def fact_specs(N, dtypes=("float", "int"), max_k=3, dyadic=True, magnitudes=False):
+    """magnitudes=True adds two float modes: 'offset' (a large common offset plus small deltas, i.e. |mean| far
+    above the spread - timestamps, ids) and 'ties' (a few inexact values repeated many times)."""
     @st.composite
     def build(draw):
         K = draw(st.sampled_from([None, None, 1, 2, 3][: 2 + max_k]))
@@ -135,12 +137,24 @@ def fact_specs(N, dtypes=("float", "int"), max_k=3, dyadic=True):
         else:
             vals = draw(st.lists(st.floats(-1e3, 1e3, allow_nan=False, width=64),
                                  min_size=size, max_size=size))
+        is_dyadic = bool(dyadic or dtype == "int")
+        mode = "plain"
+        if magnitudes and dtype == "float" and draw(st.integers(0, 2)) == 0:
+            mode = draw(st.sampled_from(["offset", "offset", "ties"]))
+            small = draw(st.lists(st.integers(-24, 24), min_size=size, max_size=size))
+            if mode == "offset":
+                base = draw(st.sampled_from([1.0e6, 1.7e9, -3.2e7, float(2 ** 40), 123456789.25]))
+                vals = [base + v / 8.0 for v in small]
+            else:
+                pool = draw(st.lists(st.sampled_from([0.1, 0.3, 2.7, 1.0e-3, 19.99, -0.7]), min_size=1, max_size=3))
+                vals = [pool[v % len(pool)] for v in small]
+            is_dyadic = False
         pmiss = draw(st.sampled_from([0, 1, 3, 7]))
         valid = draw(st.lists(st.integers(0, 7).map(lambda x: x >= pmiss), min_size=size, max_size=size))
         junk = draw(st.lists(st.integers(0, 2), min_size=size, max_size=size))
         as_list = draw(st.booleans()) if N >= 1 else False
         return {"K": K, "dtype": dtype, "form": form, "values": vals, "valid": valid, "junk": junk,
-                "as_list": as_list, "dyadic": bool(dyadic or dtype == "int")}
+                "as_list": as_list, "dyadic": is_dyadic, "mode": mode}
 
     return build()
 
